@@ -5,7 +5,7 @@ recording server impls, the REAL async client connected to the generated server'
 transport, against the extracted Coq model (coq/Model/MacroApi.v) run on the API descriptions that
 tools/translators/macroapi.py derives from the same trait text.  The direct oracle below is a Python reference of the
 property (names, argument passing, result passing) that knows nothing of the Coq model."""
-import itertools, json, os
+import itertools, json, os, unicodedata
 import vlib
 from translators import macroapi as T
 
@@ -17,29 +17,35 @@ def impl_bin():
 TRANSLATORS = ["error_codes", "macroapi", "error_consts"]     # error_consts: Model/MacroApi.v err_invalid_params / err_not_found
 MODELS = ["macroapi"]
 BINS = {"release": ["macroapi"]}
-RULE = ("case = one call on one of the compiled APIs (7 traits, 48 methods/subscriptions: 0..5 parameters, Option tails of 1, 2, 3 and 4 "
+RULE = ("case = one call on one of the compiled APIs (8 traits, 57 methods/subscriptions: 0..6 parameters, Option tails of 1, 2, 3 and 4 "
         "(positional methods and a positional subscription; every None/Some pattern of the tail is driven through the generated stub), "
         "Option parameters spelled `std::option::Option<T>`, `core::option::Option<T>`, `::core::option::Option<T>`, `option::Option<T>` next to the "
         "prelude `Option<T>` (trait Spell: sync/async/blocking methods and subscriptions, positional and by-name; for each of them every "
         "positional presentation is enumerated: tail omitted at every length x every null/value pattern of the Option arguments given), "
         "an Option in the middle, all-Option, param_kind array/map, renamed arguments, parameters written as raw identifiers (`r#type`, `r#ref`, .. "
         "un-renamed by name and positional, in a by-name subscription, renamed, as an Option tail) and with leading / trailing underscores and "
-        "digits (`_lead`, `trail_`, `mid1dle`, `r#type_`), namespace with default/custom/empty separator, "
+        "digits (`_lead`, `trail_`, `mid1dle`, `r#type_`), parameters renamed to wire names that are not identifiers (trait Ren, param_kind = map, "
+        "sync/async/blocking methods and a subscription: `dir\\name` with a backslash, `say \"hi\"` / `\"` / `a\"b` with double quotes, `gr\u00f6\u00dfe in \u00b5m` with spaces and "
+        "non-ASCII letters, `col<TAB>umn` with a control character, ` ` a single space, next to ordinary parameters; one rename literal is written with "
+        "`\\u{..}` escapes), namespace with default/custom/empty separator, "
         "aliases, sync/async/blocking, async and sync subscriptions with parameters and typed items, a method without return type, "
         "two labelled negative examples).  `stub` cases call the generated client method with typed argument values (integer "
         "boundaries of u8..u64/i8..i64, Unicode strings incl. escapes/controls/non-BMP, nested structs/enums, Vec, BTreeMap, Option, "
         "serde_json::Value) and a dictated handler outcome (value computed from the received arguments, or an error object with "
         "boundary codes / Unicode message / nested data); `raw` cases hand a hand-built request to the module: positional with "
         "trailing optionals given / null / omitted, absent params, extra elements, whitespace, by-name with any of the three keys "
-        "per parameter in any order with unknown members, duplicates, near-miss keys that must not be accepted (`type` for an un-renamed `r#type`, "
-        "other separators / cases / affixes), missing and ill-typed arguments, every alias and near-miss "
+        "per parameter in any order with unknown members, duplicates, member keys in non-canonical JSON spellings (any character as a `\\uXXXX` escape, "
+        "surrogate pairs, `\\/`: serde decodes keys, so they must be accepted; forced for every method of trait Ren), near-miss keys that must not be "
+        "accepted (`type` for an un-renamed `r#type`, other separators / cases / affixes; for the names of trait Ren every mis-reading of an escape: the "
+        "escape sequence taken literally, the backslash dropped or doubled, `\\n` / `\\t` of an unescaped name read as line feed / tab, other white space, "
+        "look-alike and differently normalised letters -- each enumerated), missing and ill-typed arguments, every alias and near-miss "
         "method names, subscriptions through aliases with unsubscribe through every unsubscribe name.  Implementation and extracted "
         "model print: method and params text of the frame the stub sent (compared byte for byte: a correspondence `diff`, key "
         "macroapi-wire-differs, never an oracle failure), identity of the trait method that ran, the argument tuple it received, what "
         "the client got.  Direct oracle (Python reference, independent of Coq; judges only what the property says): "
         "the intended handler ran and RECEIVED values equal to those the stub was called with (None for null/omitted optionals), the client got exactly "
         "the value computed from them / the dictated error object field by field / the items of the subscription, and nothing ran on "
-        "-32601/-32602.  distinct non-trivial = distinct result lines in which a trait method ran")
+        "-32601/-32602; a generated stub that panics is caught by the harness and judged as a failed call (key panic).  distinct non-trivial = distinct result lines in which a trait method ran")
 TRUSTED = [
     "translator tools/translators/macroapi.py: reads the #[rpc] trait text of harness/src/bin/macroapi.rs (the text the macro reads) into the API "
     "descriptions of coq/Gen/MacroApiGen.v; cross-checked on every run against RpcModule::method_names() of the compiled modules and by the differential run; "
@@ -53,8 +59,12 @@ TRUSTED = [
     "modelled, not verified: the proc-macro's expansion step (syn/quote) is not translated -- coq/Model/MacroApi.v models the code it emits "
     "(render_client.rs / render_server.rs read by hand), tied to the compiled expansion only by the differential run over the compiled family",
     "modelled, not verified: serde's typed (de)serialisation of argument/result types is a parameter (enc/dec) of the theorems; the driver instance "
-    "accepts exactly the canonical serde_json encoding of each type of the family; heck's snake_case/lowerCamelCase is transcribed for ASCII names "
-    "(Coq) and ported (Python oracle), the real heck is exercised only through the aliases of the family's parameter names",
+    "accepts exactly the canonical serde_json encoding of each type of the family; heck's snake_case/lowerCamelCase is transcribed char by char with the "
+    "Unicode classes and case mappings of U+0000..U+00FF (Coq; from U+0100 on: caseless alphanumerics) and ported over Python's Unicode tables (Python oracle); "
+    "the two are compared on generated names and on every char of U+0000..U+00FF in every position, the real heck is exercised only through the aliases of the "
+    "family's parameter names (incl. `gr\u00f6\u00dfe in \u00b5m` -> `gr\u00f6\u00dfeIn\u039cm`, ` ` -> the empty alias)",
+    "translator: the string literal of `#[argument(rename = \"..\")]` (and of every other attribute) is read with Rust's escape processing (quote, ASCII, "
+    "`\\xHH`, `\\u{..}` escapes, line continuation; anything else is an anchor error); names that are not printable ASCII are written to the Gen file as byte lists",
     "composition with C20 (builders), C15 (request/response/notification wire types), C13 (registry), C16 (params reader): their models are "
     "used as they are; their own ties to the code are the respective checks",
 ]
@@ -136,16 +146,53 @@ def qualified_option(q):
     return q["opt"] and T.option_spelling(*q["path"]) != "prelude"
 
 
+def special_name(q):
+    """the wire name is not an identifier: it has a character JSON must escape (`\\`, `"`, a control character), a space or a
+    non-ASCII letter (`#[argument(rename = "..")]` takes any string)"""
+    return any(not (c.isascii() and (c.isalnum() or c in "_#")) for c in p_name(q))
+
+
 def near_keys(q):
     """spellings close to a parameter's keys that the generated server must NOT take for it (filtered against the accepted
-    keys of the whole method by the caller): the raw identifier without `r#`, other separators and cases, affixes"""
+    keys of the whole method by the caller): the raw identifier without `r#`, other separators and cases, affixes; for a wire
+    name with characters JSON escapes: the strings a WRONG reading of an escape yields (the escape sequence taken literally, the
+    backslash dropped, `\\n` / `\\t` of an unescaped `dir\\name` read as a line feed / tab, ..), other white space, look-alike and
+    differently normalised letters"""
     n = p_name(q)
     bare = q["ident"][2:] if q["ident"].startswith("r#") else q["ident"]
     ws = heck_words(n)
     out = [bare, "r#" + bare, "r#" + n, n.upper(), n + "_", "_" + n, "__" + n, n.replace("#", "-"), n.replace("#", ""), n.replace("#", "##"),
            "-".join(w.lower() for w in ws), "_".join(w.upper() for w in ws), "".join(w[:1].upper() + w[1:].lower() for w in ws),
            n.strip("_") + "__", n[:-1], n + "x", " " + n, n.replace("_", ""), bare.strip("_"), "R#" + bare]
+    if special_name(q):
+        lit = json.dumps(n)[1:-1]                # the JSON spelling taken literally (backslashes and all) as the key
+        out += [lit, json.dumps(n), n.replace("\\", "\\\\"), n.replace("\\", "/"), n.replace("\\", ""), n.replace("\\", "\\u005c"),
+                n.replace("\\n", "\n"), n.replace("\\t", "\t"), n.replace("\\", "\\ "), n.replace('"', "'"), n.replace('"', ""), n.replace('"', '\\"'),
+                n.replace('"', "\u201d"), n.replace("\t", " "), n.replace("\t", ""), n.replace("\t", "\\t"), n.replace("\t", "\n"), n.replace("\t", "\\u0009"),
+                n.replace(" ", "\t"), n.replace(" ", "\u00a0"), n.replace(" ", "  "), n.replace(" ", ""), n.replace(" ", "_", 1), n + " ", n + "\x00",
+                n.replace("\u00b5", "\u03bc"), n.replace("\u00df", "ss"), n.replace("\u00f6", "o"), n.replace("\u00f6", "oe"),
+                unicodedata.normalize("NFD", n), unicodedata.normalize("NFKC", n), n.lower(), n.title(), n.encode("utf-8").decode("latin-1"),
+                n.encode("ascii", "ignore").decode("ascii"), n.encode("ascii", "replace").decode("ascii")]
     return [k for k in dict.fromkeys(out) if k]
+
+
+def key_text(rng, k, mode="mixed"):
+    """a JSON string literal that decodes to k, other than the canonical spelling: every character at random ("mixed") or always
+    ("all") as a `\\uXXXX` escape (a surrogate pair beyond the BMP; hex digits in either case), else as serde_json would write it
+    (`/` also as `\\/`).  serde decodes member keys like any string, so every such spelling names the same parameter"""
+    out = []
+    for c in k:
+        if mode == "all" or rng.random() < 0.45:
+            o = ord(c)
+            units = [o] if o < 0x10000 else [0xD800 + ((o - 0x10000) >> 10), 0xDC00 + ((o - 0x10000) & 0x3FF)]
+            for u in units:
+                h = "%04x" % u
+                out.append("\\u" + (h.upper() if rng.random() < 0.5 else h))
+        elif c == "/" and rng.random() < 0.5:
+            out.append("\\/")
+        else:
+            out.append(json.dumps(c, ensure_ascii=False)[1:-1])
+    return '"' + "".join(out) + '"'
 
 
 # ------------------------------------------------------------------ typed values (Python objects; dicts keep declaration order)
@@ -306,10 +353,16 @@ def emit_array(rng, vals):
     return ("[" + ",".join(ws(rng) + dumps(v, rng).decode() + ws(rng) for v in vals) + "]").encode()
 
 
-def emit_object(rng, members):
+def emit_object(rng, members, keymode=None):
+    """keymode None: keys as json.dumps writes them (now and then in another spelling, key_text); "mixed" / "all": key_text"""
     if not members:
         return ("{" + ws(rng, 0.5) + "}").encode()
-    return ("{" + ",".join(ws(rng) + dumps(k, rng).decode() + ws(rng) + ":" + ws(rng) + dumps(v, rng).decode() + ws(rng)
+
+    def key(k):
+        if keymode is not None:
+            return key_text(rng, k, keymode)
+        return key_text(rng, k) if rng.random() < 0.12 else dumps(k, rng).decode()
+    return ("{" + ",".join(ws(rng) + key(k) + ws(rng) + ":" + ws(rng) + dumps(v, rng).decode() + ws(rng)
                            for k, v in members) + "}").encode()
 
 
@@ -374,6 +427,14 @@ RET = {
     "6.m8": lambda a: list(a),
     "6.s0": lambda a: [[(a[0] + i) % 2**32, a[1], a[2]] for i in range(1 + a[0] % 3)],
     "6.s1": lambda a: [((a[1] if a[1] is not None else 9) + i) % U64 for i in range(1 + a[0] % 3)],
+    "7.m0": lambda a: [a[1], a[0]],
+    "7.m1": lambda a: [a[1], a[0]],
+    "7.m2": lambda a: list(a),
+    "7.m3": lambda a: list(a),
+    "7.m4": lambda a: [a[1], a[0]],
+    "7.m5": lambda a: list(reversed(a)),
+    "7.m6": lambda a: list(a),
+    "7.s0": lambda a: [[(a[1] + i) % 2**32, a[0] + str(i)] for i in range(1 + a[1] % 3)],
 }
 # labelled examples: (api index, handler) -> why it is outside the property's hypotheses
 NEG_COLLIDE = "4.m0"      # a_b / aB: by-name decoding is ambiguous
@@ -591,7 +652,16 @@ def gen_cases(ctx, ref):
                 for cut in range(nreq, len(params) + 1):
                     optpos = [i for i in range(cut) if params[i]["opt"]]
                     for pat in itertools.product([False, True], repeat=len(optpos)):
-                        forced += [(cut, dict(zip(optpos, pat)))] * 2
+                        forced += [("spell", cut, dict(zip(optpos, pat)))] * 2
+            # methods with a wire name that is not an identifier (a character JSON escapes, a space, non-ASCII letters): by name with
+            # the keys in other JSON spellings (must be accepted: serde decodes member keys), and every near-miss key of every
+            # such parameter in turn (must not be accepted)
+            if any(special_name(q) for q in params):
+                forced += [("esc", "all")] * 6 + [("esc", "mixed")] * 40
+                allkeys = set(k for q in params for k in keys_of(q))
+                for i, q in enumerate(params):
+                    if special_name(q):
+                        forced += [("near", i, nk) for nk in near_keys(q) if nk not in allkeys] * 2
             for plan in forced + [None] * (n_raw * (2 if params else 1)):
                 outcome, oc = gen_outcome(rng)
                 if hid == BOUNDARY_NOTE:
@@ -605,8 +675,25 @@ def gen_cases(ctx, ref):
                     # no decoding code is emitted: whatever the params are, the method runs
                     ptxt = rng.choice([None, b"[]", b"[ ]", b"[1,2]", b"{\"x\":1}", b"5", b"\"s\"", b"null", b"[null]"])
                     tag = "raw-noparams"
+                elif plan is not None and plan[0] == "esc":
+                    # by name, every key one of the parameter's keys (mostly the wire name) in a non-canonical JSON spelling
+                    members = []
+                    for i, (q, v) in enumerate(zip(params, args)):
+                        if q["opt"] and rng.random() < 0.25:
+                            expect_args[i] = None
+                            continue
+                        members.append((p_name(q) if rng.random() < 0.7 else rng.choice(keys_of(q)), v))
+                    rng.shuffle(members)
+                    ptxt = emit_object(rng, members, plan[1])
+                    tag = "raw-named-esckey"
+                elif plan is not None and plan[0] == "near":
+                    _, i, nk = plan
+                    members = [(nk if j == i else p_name(q), v) for j, (q, v) in enumerate(zip(params, args))]
+                    rng.shuffle(members)
+                    ptxt = emit_object(rng, members, rng.choice([None, None, "mixed"]))
+                    tag = "raw-named-nearkey"
                 elif plan is not None:
-                    cut, some = plan
+                    _, cut, some = plan
                     vals = []
                     for i, (q, v) in enumerate(zip(params, args)):
                         if i >= cut:
@@ -667,7 +754,7 @@ def gen_cases(ctx, ref):
                     tag = "raw-named"
                     if hid == NEG_COLLIDE:
                         tag = "raw-named-collide"
-                elif r < 0.66 and (any(q["ident"].startswith("r#") or "_" in p_name(q) for q in params) or r < 0.63):
+                elif r < 0.66 and (any(q["ident"].startswith("r#") or "_" in p_name(q) or special_name(q) for q in params) or r < 0.63):
                     # by name, one parameter under a near-miss key no parameter of the method accepts (`type` for an un-renamed
                     # `r#type`, other separators / cases / affixes): an unknown member, so a required parameter is missing
                     # (-32602, nothing runs) and an Option parameter is None
@@ -675,7 +762,7 @@ def gen_cases(ctx, ref):
                     cands = [(i, k) for i, q in enumerate(params) for k in near_keys(q) if k not in allkeys]
                     if not cands:
                         continue
-                    raws = [c for c in cands if params[c[0]]["ident"].startswith("r#")]
+                    raws = [c for c in cands if params[c[0]]["ident"].startswith("r#") or special_name(params[c[0]])]
                     i, nk = rng.choice(raws if raws and rng.random() < 0.7 else cands)
                     members = [(nk if j == i else rng.choice(keys_of(q)), v) for j, (q, v) in enumerate(zip(params, args))]
                     rng.shuffle(members)
@@ -750,7 +837,7 @@ def gen_cases(ctx, ref):
                     e = {"h": None, "a": None, "wire": None, "c": ("err", -32602, "Invalid params", "*")}
                 else:
                     if tag in ("raw-pos-full", "raw-pos-omitted", "raw-pos-absent", "raw-pos-surplus", "raw-named", "raw-spelled-omitted", "raw-spelled-null",
-                               "raw-spelled-present") and hid != NEG_COLLIDE:
+                               "raw-spelled-present", "raw-named-esckey") and hid != NEG_COLLIDE:
                         assert dec == expect_args, (hid, ptxt, dec, expect_args)       # the generator's own bookkeeping
                     e = expect_call(ai, kind, idx, dec, oc, None, un_used if kind == "s" else None, un_res)
                     if hid == BOUNDARY_NOTE:
@@ -821,6 +908,11 @@ def parse_line(line):
             r["c"] = ("sub", None if nn is None else nn.decode("utf-8"), json.loads(bytes.fromhex(c[2]).decode("utf-8")), un, ur)
         elif c[0] == "fail":
             r["c"] = ("fail",)
+            # the harness puts the reason after `c:fail:`; a panic (of the generated stub, of a task) is reported there, not by dying
+            try:
+                r["failtext"] = bytes.fromhex(c[1]).decode("utf-8", "replace") if len(c) > 1 else ""
+            except ValueError:
+                r["failtext"] = ""
         else:
             return None
         return r
@@ -881,6 +973,9 @@ def check(expect, r):
     if r is None:
         return [("unreadable-result", "result line not understood")]
     rc = list(r["c"])
+    if rc[0] == "fail" and r.get("failtext", "").startswith("PANIC"):
+        # a call that panics did not reach the method with equal arguments (the other keys below fire as well)
+        bad.append(("panic", r["failtext"][:300]))
     if e.get("neg") == "optopt":
         # labelled negative: Option<Option<u8>>; Some(None) cannot be told from None on the wire
         sent = e["sent"]
@@ -953,10 +1048,16 @@ def run(ctx):
     # (0b) heck: Coq transcription against the Python port on the family's names and on generated identifiers
     rng = ctx.rng
     names = sorted(set(p_name(q) for a in ref.apis for it in a["methods"] + a["subs"] for q in it["params"]))
-    parts = ["a", "b", "ab", "A", "B", "AB", "Ab", "aB", "1", "2", "_", "__", "-", " ", "x", "XML", "Http", "r#", "id", "ID", "é"]
+    parts = ["a", "b", "ab", "A", "B", "AB", "Ab", "aB", "1", "2", "_", "__", "-", " ", "x", "XML", "Http", "r#", "id", "ID", "\u00e9", "\\", "\"", "\t",
+             "\u00d6", "\u00f6", "\u00df", "\u00b5", "\u00aa", "\u00b2", "\u00a0", "\u00d7", "\u00ff", "\u00c9l", "\u4e2d"]
     for _ in range(ctx.scale(1500, 20000)):
         names.append("".join(rng.choice(parts) for _ in range(rng.randint(1, 6))))
-    names = [n for n in names if all(ord(c) < 128 for c in n)]
+    # the Coq transcription carries the Unicode classes / case mappings of U+0000..U+00FF: every such char in word-initial, inner and
+    # final position next to cased ASCII letters (from U+0100 on it knows caseless alphanumerics only: U+4E2D above)
+    for o in range(0x100):
+        c = chr(o)
+        names += [c, "a" + c + "B", "A" + c + "b", "x_" + c + "y", c + c, "aB" + c + "C", "AB" + c]
+    names = [n for n in names if all(ord(c) < 0x100 or c == "\u4e2d" for c in n)]
     res = vlib.run_lines([model], ["heck " + (hxs(n) if n else "-") for n in names], min_shard=2000)
     for n, r in zip(names, res):
         ctx.evaluations += 1
